@@ -14,6 +14,7 @@ from vf.props import c06
 ID = "C07"
 LEVEL = "exploration"
 SHARDS = {"quick": 1, "thorough": 16}
+FUZZ = {"thorough": (16, 5000)}  # atheris campaigns x executions each (vf/fuzz.py)
 N_QUICK, N_THOROUGH = 900, 8000
 RULE = ("case = (condition: a guarded partial operation - `xs and xs[0] > k`, `o.child is None or o.child.n > k`, `n != "
         "0 and 10 // n > k`, `0 < n < 10 // n`, `s in d and d[s] > k`, `len(t) > 0 and t[0] > k`, `not xs or ...`, "
